@@ -1,9 +1,9 @@
 SPECIFICATION SpecTree
 CONSTANTS
   NCH = 24
-  NB = 7
+  NB = 6
   Variant = "fixed"
-  NGRP = 3
+  NGRP = 4
 INVARIANT LeafSettingsInv
 INVARIANT GroupsPartitionInv
 CHECK_DEADLOCK FALSE
